@@ -578,6 +578,17 @@ class PrintNodeIdentifier(PrintNode):
         else:
             return node.name + "()"
 
+    def visit_Constant(self, node):
+        # A leading zero is octal in C++ but decimal in Fortran.
+        # Write octal literals in decimal.
+        value = node.value
+        if len(value) > 1 and value[0] == "0" and value.isdigit():
+            try:
+                return str(int(value, 8))
+            except ValueError:
+                pass
+        return value
+
 def print_node_identifier(node, symbols, key):
     """Convert node to original string and change identifiers
     """
